@@ -123,7 +123,7 @@ func init() {
 		Clauses:     "same Unmarshal error verdict; same field values, presence, Equal, CheckInitialized, deterministic Marshal bytes, JSON and text content after every history; Marshal output encodes the same content; no panic at any access after a successful Unmarshal",
 		Probes:      []string{"failed-decode-mid-history", "initial-decode-rejected-by-both"},
 		FaultKinds:  []string{"failed-decode", "denormalised-wire", "scribble"},
-		Quick:       plan{Builds: []buildCfg{{Race: false, Share: 1}}, Secs: 30},
+		Quick:       plan{Builds: []buildCfg{{Race: false, Share: 3}, {Race: false, Tags: []string{"protolegacy"}, Share: 1}}, Secs: 30},
 		Thorough:    plan{Builds: []buildCfg{{Race: false, Share: 3}, {Race: false, Tags: []string{"protoopaque"}, Share: 2}, {Race: false, Tags: []string{"protolegacy"}, Share: 2}, {Race: true, Share: 1}}, Secs: 900},
 	}
 }
